@@ -48,3 +48,14 @@ if not _where.startswith(REPO + os.sep):
     raise ImportError(f"synapgrad imported from {_where}, expected under {REPO}")
 
 sg = synapgrad
+
+
+def reset_global_modes():
+    """Reset the library's process-global gradient/retain modes at the top of a case, so that a defect that
+    corrupts them in one case cannot leak into the next (used for isolation only, never for assertions)."""
+    mod = sys.modules.get("synapgrad.tensor")
+    if mod is not None:
+        if hasattr(mod, "gradient__"):
+            mod.gradient__ = True
+        if hasattr(mod, "retain_grads__"):
+            mod.retain_grads__ = False
